@@ -635,7 +635,7 @@ Definition alt_step (v : variant) (s : state) (tr : list event) (evs : list even
    event is not yet enabled): further events of the same group may still bring
    competitors, so every hand-over to the transport may be left for the wait
    that ends the group. *)
-Fixpoint settle_nd (v : variant) (auto_app : bool) (lazy : bool) (fuel : nat) (skip : list nat) (p : cand) : list cand :=
+Fixpoint settle_nd (v : variant) (auto_app : bool) (lazy : bool) (target : list Z) (fuel : nat) (skip : list nat) (p : cand) : list cand :=
   match fuel with
   | O => []
   | S f =>
@@ -643,15 +643,27 @@ Fixpoint settle_nd (v : variant) (auto_app : bool) (lazy : bool) (fuel : nat) (s
     match first_enabled v s (internal_events_skip auto_app skip s) with
     | None => [p]
     | Some (e, s') =>
-      settle_nd v auto_app lazy f skip (s', tr ++ [e]) ++
       match e with
-      | WakeResp c =>
-        if racing s c then flat_map (settle_nd v auto_app lazy f skip) (alt_step v s tr [WakeDone c; WakeCtx c]) else []
-      | WireWrite c | SendFail c =>     (* (a Send that fails may find that out only once it has the transport) *)
-        if lazy || write_open v s c then settle_nd v auto_app lazy f (c :: skip) p else []
-      | AppRecv =>
-        if done s then flat_map (settle_nd v auto_app lazy f skip) (alt_step v s tr [WatchSeeDone]) else []
-      | _ => []
+      | WireWrite c =>
+        (* R2, guided by what the transport showed after this forced group ([target]: whose frames are on
+           the wire, in order): the call hands its frame over now iff it is the next one there; otherwise it waits,
+           if waiting is allowed (no enumeration of the subsets of waiting senders) *)
+        let later := if lazy || write_open v s c then settle_nd v auto_app lazy target f (c :: skip) p else [] in
+        match nth_error target (List.length (wire s)) with
+        | Some id => if (id =? Z.of_nat c)%Z then settle_nd v auto_app lazy target f skip (s', tr ++ [e]) else later
+        | None => later
+        end
+      | _ =>
+        settle_nd v auto_app lazy target f skip (s', tr ++ [e]) ++
+        match e with
+        | WakeResp c =>
+          if racing s c then flat_map (settle_nd v auto_app lazy target f skip) (alt_step v s tr [WakeDone c; WakeCtx c]) else []
+        | SendFail c =>     (* (a Send that fails may find that out only once it has the transport) *)
+          if lazy || write_open v s c then settle_nd v auto_app lazy target f (c :: skip) p else []
+        | AppRecv =>
+          if done s then flat_map (settle_nd v auto_app lazy target f skip) (alt_step v s tr [WatchSeeDone]) else []
+        | _ => []
+        end
       end
     end
   end.
@@ -697,17 +709,17 @@ Definition same_state (a b : state) : bool :=
 Definition dedup (cs : list cand) : list cand :=
   fold_left (fun acc p => if existsb (fun q => same_state (fst q) (fst p)) acc then acc else acc ++ [p]) cs [].
 
-Fixpoint run_group_nd (v : variant) (auto_app : bool) (evs : list event) (p : cand) : list cand :=
+Fixpoint run_group_nd (v : variant) (auto_app : bool) (target : list Z) (evs : list event) (p : cand) : list cand :=
   match evs with
-  | [] => settle_nd v auto_app false settle_fuel [] p
+  | [] => settle_nd v auto_app false target settle_fuel [] p
   | e :: r =>
     match step v (fst p) e with
-    | Some s1 => run_group_nd v auto_app r (s1, snd p ++ [e])
+    | Some s1 => run_group_nd v auto_app target r (s1, snd p ++ [e])
     | None =>
       flat_map (fun p2 => match step v (fst p2) e with
-                          | Some s3 => run_group_nd v auto_app r (s3, snd p2 ++ [e])
+                          | Some s3 => run_group_nd v auto_app target r (s3, snd p2 ++ [e])
                           | None => []
-                          end) (dedup (settle_nd v auto_app true settle_fuel [] p))
+                          end) (dedup (settle_nd v auto_app true target settle_fuel [] p))
     end
   end.
 
@@ -725,14 +737,14 @@ Fixpoint run_sched_nd (v : variant) (auto_app : bool) (gs : list (list event)) (
   | [], [] => cs
   | g :: gr, sn :: sr =>
     run_sched_nd v auto_app gr sr
-      (dedup (filter (fun p => beq_snap2 (snapshot2 (fst p)) sn) (flat_map (run_group_nd v auto_app g) cs)))
+      (dedup (filter (fun p => beq_snap2 (snapshot2 (fst p)) sn) (flat_map (run_group_nd v auto_app (snd sn) g) cs)))
   | _, _ => []
   end.
 
 (* the run of the model that shows the snapshots and the final observation, if there is one *)
 Definition sched_nd (v : variant) (auto_app : bool) (gs : list (list event)) (snaps : list snap2) (final : obs) : option cand :=
   find (fun p => beq_obs (observe (fst p)) final)
-       (run_sched_nd v auto_app gs snaps (settle_nd v auto_app false settle_fuel [] (init, []))).
+       (run_sched_nd v auto_app gs snaps (settle_nd v auto_app false [] settle_fuel [] (init, []))).
 
 (* the generated cases: what the implementation showed after every forced event
    and at the end is what ONE of the runs the model admits for these forced events shows *)
